@@ -337,6 +337,11 @@ def run(ctx):
     if n_str < 20:
         raise AnalysisBroken("only %d std::string-returning functions scanned" % n_str)
 
+    escape_checks(prog, R, "C12-R3", "C12-R4")
+
+
+def escape_checks(prog, R, r3, r4):
+    """escape()/unescape() are inverse and position independent; printers and tokenizer agree on delimiters"""
     # ---- R3 --------------------------------------------------------------------------
     es = prog.fn("occa::escape")
     cfg = es.cfg
@@ -358,7 +363,7 @@ def run(ctx):
         bound = a["k"] == "BinaryOperator" and a.get("op") == "<" and strip(kids(a)[0]).get("d") == idx
         if mentions_i and not in_subscript and not bound:
             bad.append(noid(k))
-    R.ob("C12-R3", not bad, es.q, "emit-escape condition is position independent", es.site(apps[0]),
+    R.ob(r3, not bad, es.q, "emit-escape condition is position independent", es.site(apps[0]),
          "the escape character is emitted whenever the delimiter is met" if not bad else
          "the decision to escape depends on the position (%s): a delimiter in first position is written unescaped, and unescape() (position independent) cannot invert it" % bad)
     un = prog.fn("occa::unescape")
@@ -367,7 +372,7 @@ def run(ctx):
     if ok:
         fs = {noid(k) for (k, pol) in un.cfg.facts_at(conts[0]) if pol}
         ok = any("cstr[i] == escapeChar" in k for k in fs) and any("cstr[(i + 1)] == c" in k for k in fs)
-    R.ob("C12-R3", ok, un.q, "unescape drops escapeChar exactly before the delimiter", un.site(conts[0]) if conts else un.relfile, "inverse of escape()")
+    R.ob(r3, ok, un.q, "unescape drops escapeChar exactly before the delimiter", un.site(conts[0]) if conts else un.relfile, "inverse of escape()")
 
     # ---- R4 --------------------------------------------------------------------------
     def delim_of(f, fname):
@@ -384,17 +389,17 @@ def run(ctx):
         pf, tf = prog.fn(pq), prog.fn(tq)
         a, b = delim_of(pf, pe), delim_of(tf, tu)
         ok = a == [want] and b == [want]
-        R.ob("C12-R4", ok, pq, "delimiter:%s escape(%s) vs %s unescape(%s)" % (pq.split("::")[-2], [chr(x) for x in a if isinstance(x, int)], tq.split("::")[-1], [chr(x) for x in b if isinstance(x, int)]),
+        R.ob(r4, ok, pq, "delimiter:%s escape(%s) vs %s unescape(%s)" % (pq.split("::")[-2], [chr(x) for x in a if isinstance(x, int)], tq.split("::")[-1], [chr(x) for x in b if isinstance(x, int)]),
              "%s:%d" % (pf.relfile, pf.d["line"]), "printer escapes the delimiter the tokenizer unescapes")
         # the printer also surrounds the text with that delimiter
         lits = [literal(x) for x in pf.walk() if x["k"] in ("CharacterLiteral", "StringLiteral")]
-        R.ob("C12-R4", lits.count(want) + lits.count(chr(want)) >= 3, pq, "quotes:%s around the escaped text" % chr(want), "%s:%d" % (pf.relfile, pf.d["line"]), "opening and closing delimiter written")
+        R.ob(r4, lits.count(want) + lits.count(chr(want)) >= 3, pq, "quotes:%s around the escaped text" % chr(want), "%s:%d" % (pf.relfile, pf.d["line"]), "opening and closing delimiter written")
     go = prog.fn(TK + "getOperatorToken")
     adv = [n for n in go.walk() if write_target(n) is not None and is_cursor(write_target(n))]
     ok = len(adv) == 1 and noid(render(kids(adv[0])[1], False)) == "result.length"
     gl = [c for c in go.walk() if is_call(c) and callee(c).endswith("::getLongest")]
     ok = ok and len(gl) == 1 and any(is_cursor(a) for a in call_args(gl[0]))
-    R.ob("C12-R4", ok, go.q, "operator consumed by the longest match's length", go.site(adv[0]) if adv else go.relfile, "fp.start += getLongest(fp.start).length (longest-match: C28)")
+    R.ob(r4, ok, go.q, "operator consumed by the longest match's length", go.site(adv[0]) if adv else go.relfile, "fp.start += getLongest(fp.start).length (longest-match: C28)")
 
 
 def call_is_nonmoving(c, m):
